@@ -1,5 +1,5 @@
 CONSTANTS
-  Impl = "asis"
+  Impl = "current"
   Space = "replayT"
 INIT Init
 NEXT Next
